@@ -57,10 +57,12 @@ fn replay_opt(path: &str) -> i32 {
     };
     let mut score = [0.; MAXC];
     for t in 0..MAXC {
-        score[t] = f(&v["script"]["score"][t]);
+        if let Some(x) = v["script"]["score"].get(t) {
+            score[t] = f(x);
+        }
     }
     let script = Script {
-        valid: v["script"]["valid"].as_u64().unwrap() as u32,
+        valid: v["script"]["valid"].as_u64().unwrap(),
         score,
         init_score: f(&v["script"]["init_score"]),
     };
